@@ -9,6 +9,8 @@ import Proofs.KNProb
 import Proofs.KNCorpus3
 import Proofs.KNCorpus4
 import Proofs.KNInterp2
+import Proofs.KNOutput
+import Proofs.KNCorpus5
 /-!
 # C06 — lmplz output is a proper, closed, loadable language model
 
@@ -118,9 +120,43 @@ theorem normalised_stream (cfg : Cfg) (pv : Bool) (fallback : Option Disc) (corp
   rw [KV.KN.Interp.estimate_eq_spec cfg pv fallback corpus (by omega) hne hw hthr hk hfix hpv] at hm
   exact normalised_corpus cfg pv fallback corpus m hm h2 hne hw hthr ctx
 
-/- `intermediate_eq`: in the model the ARPA text and the intermediate files are two sinks of the
-same list `m.orders` / `m.header` (`Output::SinkProbs`), so there is nothing to prove; the check
-compares the real files value by value (float bit patterns) and the metadata counts. -/
+open KV.KN.Output in
+/-- **intermediate_eq**: over the model of `Output::SinkProbs` with both hooks (`writeBoth`): the
+ARPA text and the intermediate files carry the same metadata counts, the same number of orders
+and records per order, and line by line the same n-gram, the same probability and — wherever
+the ARPA prints one (all orders but the highest) — the same back-off; the ARPA is a function
+of the intermediate files. -/
+theorem intermediate_eq (m : Model) :
+    (writeBoth m).1.counts = (writeBoth m).2.counts ∧
+    (writeBoth m).1.sections.length = (writeBoth m).2.files.length ∧
+    (∀ i : Nat, (writeBoth m).1.sections[i]?.map List.length = (writeBoth m).2.files[i]?.map List.length) ∧
+    (∀ (i j : Nat) (line : ArpaLine), (writeBoth m).1.sections[i]?.bind (·[j]?) = some line →
+      ∃ r : InterRec, (writeBoth m).2.files[i]?.bind (·[j]?) = some r ∧ line.1 = r.1 ∧ line.2.1 = r.2.1 ∧
+        (∀ b, line.2.2 = some b → b = r.2.2) ∧
+        line.2.2.isSome = decide (i + 1 < (writeBoth m).2.files.length)) ∧
+    (writeBoth m).1 = arpaFromInter (writeBoth m).2 :=
+  KV.KN.Output.intermediate_eq m
+
+open KV.KN.Output in
+/-- with `header_counts_corpus` the metadata / header counts are the file / section lengths -/
+theorem intermediate_header (m : Model) (h : m.header = m.orders.map List.length) :
+    (interOf m).counts = (interOf m).files.map List.length ∧
+    (arpaOf m).counts = (arpaOf m).sections.map List.length :=
+  KV.KN.Output.intermediate_header m h
+
+/-- **specials, order-1 model** (`closed` is vacuous there: nothing of order ≥ 2 is written) -/
+theorem specials_corpus1 (cfg : Cfg) (pv : Bool) (fallback : Option Disc) (corpus : List (List Word)) (m : Model)
+    (hm : Spec.estimate cfg pv fallback corpus = .ok m) (h1 : cfg.order = 1) (hne : corpus ≠ [])
+    (hw : ∀ s ∈ corpus, ∀ w ∈ s, 3 ≤ w) :
+    (Query.lookup m.orders [unk]).isSome = true ∧ (Query.lookup m.orders [bos]).isSome = true ∧
+      (Query.lookup m.orders [eos]).isSome = true :=
+  KV.KN.Norm.specials_corpus1 cfg pv fallback corpus m hm h1 hne hw
+
+/-- **header_counts, order-1 model** -/
+theorem header_counts_corpus1 (cfg : Cfg) (pv : Bool) (fallback : Option Disc) (corpus : List (List Word)) (m : Model)
+    (hm : Spec.estimate cfg pv fallback corpus = .ok m) (h1 : cfg.order = 1) (hne : corpus ≠ [])
+    (hw : ∀ s ∈ corpus, ∀ w ∈ s, 3 ≤ w) : m.header = m.orders.map List.length :=
+  KV.KN.Norm.header_counts_corpus1 cfg pv fallback corpus m hm h1 hne hw
 
 /-- the order-1 model -/
 theorem normalised_corpus1 (cfg : Cfg) (pv : Bool) (fallback : Option Disc) (corpus : List (List Word))
@@ -227,6 +263,87 @@ theorem specials_corpus (cfg : Cfg) (pv : Bool) (fallback : Option Disc) (corpus
     (Query.lookup m.orders [unk]).isSome = true ∧ (Query.lookup m.orders [bos]).isSome = true ∧
       (Query.lookup m.orders [eos]).isSome = true :=
   KV.KN.Norm.specials_corpus cfg pv fallback corpus m hm h2 hne hw hthr
+
+/-! ## the option-vector rule of `ParsePruning` is what `closed` rests on -/
+
+/-- the rule the current tree applies to `--prune` vectors (observed by the probe on fixed
+vectors: a decrease at the first, a middle and only the LAST position, too many values, vectors
+shorter than the order) is the model's `pruneVectorOK` -/
+theorem prune_rule_tree : ∀ x ∈ KV.Gen.C06.pruneProbe, pruneVectorOK x.1 x.2.1 = x.2.2 := by decide
+
+theorem getD_mono_of_nonDecreasing : ∀ (l : List Nat) (d : Nat), l.getLast? = some d → nonDecreasing l = true →
+    ∀ i, l.getD i d ≤ l.getD (i + 1) d
+  | [], _, h, _, _ => by simp at h
+  | [a], d, h, _, i => by
+    simp at h; subst h
+    cases i <;> simp [List.getD]
+  | a :: b :: t, d, h, hn, i => by
+    have hl : (b :: t).getLast? = some d := by simpa [List.getLast?_cons_cons] using h
+    simp only [nonDecreasing, Bool.and_eq_true, decide_eq_true_eq] at hn
+    cases i with
+    | zero => simpa [List.getD] using hn.1
+    | succ j =>
+      have := getD_mono_of_nonDecreasing (b :: t) d hl hn.2 j
+      simpa [List.getD] using this
+
+/-- thresholds padded from a non-decreasing vector are non-decreasing over all orders -/
+theorem padPrune_mono (vals : List Nat) (h : nonDecreasing vals = true) (i : Nat) :
+    padPrune vals i ≤ padPrune vals (i + 1) := by
+  unfold padPrune
+  cases hl : vals.getLast? with
+  | none => simp
+  | some d => exact getD_mono_of_nonDecreasing vals d hl h i
+
+/-- what an accepted `--prune` option means: the values parse, satisfy `pruneVectorOK`, and the
+thresholds used are the padded ones — in particular they never decrease -/
+theorem parsePruning_ok (toks : List String) (order : Nat) (thr : Nat → Nat)
+    (h : parsePruning toks order = .ok thr) :
+    (∃ vals, toks.mapM parseU64 = some vals ∧ (vals = [] ∨ pruneVectorOK vals order = true) ∧ thr = padPrune vals) ∧
+    ∀ i, thr i ≤ thr (i + 1) := by
+  unfold parsePruning at h
+  cases hm : toks.mapM parseU64 with
+  | none => simp [hm] at h
+  | some vals =>
+    simp only [hm] at h
+    by_cases he : vals.isEmpty = true
+    · simp only [he, if_true] at h
+      have hv : vals = [] := by simpa using he
+      cases h
+      exact ⟨⟨vals, rfl, Or.inl hv, by subst hv; rfl⟩, fun _ => Nat.le_refl _⟩
+    · simp only [he] at h
+      by_cases hc : vals.length > order
+      · simp [hc] at h
+      · by_cases hd : nonDecreasing vals = true
+        · simp [hc, hd] at h
+          cases h
+          refine ⟨⟨vals, rfl, Or.inr ?_, rfl⟩, padPrune_mono vals hd⟩
+          simp [pruneVectorOK, hd]; omega
+        · simp [hc, hd] at h
+
+/-- **closed, under the rule lmplz enforces on `--prune`**: whenever `ParsePruning` accepts the
+option, every written n-gram has its context and its suffix written one order lower. -/
+theorem closed_under_prune_rule (cfg : Cfg) (toks : List String) (hp : parsePruning toks cfg.order = .ok cfg.thr)
+    (pv : Bool) (fallback : Option Disc) (corpus : List (List Word)) (m : Model)
+    (hm : Spec.estimate cfg pv fallback corpus = .ok m) (h2 : 2 ≤ cfg.order) (hne : corpus ≠ [])
+    (hw : ∀ s ∈ corpus, ∀ w ∈ s, 3 ≤ w) (g : Gram) (hg : 2 ≤ g.length)
+    (hin : (Query.lookup m.orders g).isSome = true) :
+    (Query.lookup m.orders g.tail).isSome = true ∧ (Query.lookup m.orders g.dropLast).isSome = true :=
+  KV.KN.Norm.closed_corpus cfg pv fallback corpus m hm h2 hne hw
+    (fun i _ => (parsePruning_ok toks cfg.order cfg.thr hp).2 i) g hg hin
+
+/-- the corpus `a b c / a b c` as its order-3 count table -/
+def ruleWitnessTable : Spec.Table := [([2, 5, 4], 2), ([3, 1, 1], 2), ([4, 3, 1], 2), ([5, 4, 3], 2)]
+
+def ruleWitnessCfg : Cfg := { order := 3, thr := padPrune [0, 2, 1], excl := fun _ => false }
+
+/-- **the rule is necessary**: with the vector `0 2 1` (refused by `pruneVectorOK`; a tree whose
+check skips the last pair accepts it) the trigram `a b c` (count 2 > 1) is written while its
+context `a b` (count 2 ≤ 2) and every other bigram is pruned: closure fails. -/
+theorem closed_fails_without_rule :
+    pruneVectorOK [0, 2, 1] 3 = false ∧
+    ∃ e ∈ Spec.ents ruleWitnessCfg ruleWitnessTable 3, e.gram = [5, 4, 3] ∧ keptBy e = true ∧
+      ∀ e' ∈ Spec.ents ruleWitnessCfg ruleWitnessTable 2, keptBy e' = false := by
+  decide
 
 /-- **closed** (specification): every written n-gram of order ≥ 2 has its context (drop the
 newest word) and its suffix (drop the oldest word) written one order lower — under pruning too. -/
